@@ -26,7 +26,7 @@ PROP = "C18"
 EXTRA_TARGETS = ["theories/Medium/Check.vo"]
 HEADER = """From Coq Require Import String QArith List Bool ZArith.
 From Cobra.LP Require Import Defs Fba.
-From Cobra.Medium Require Import Model Check.
+From Cobra.Medium Require Import Model MinMedium Check.
 Import ListNotations.
 Open Scope Q_scope."""
 CASE_TYPE = "c18case"
@@ -135,7 +135,7 @@ def to_cobra(net, solver="glpk"):
 
 
 def gen_cases(rng, tier):
-    n_nets = 45 if tier == "quick" else 700
+    n_nets = 70 if tier == "quick" else 700
     cases = []
     for k in range(n_nets):
         net = gen_medium_net(rng)
@@ -162,7 +162,7 @@ def gen_cases(rng, tier):
             elif u < 0.09 and mu:
                 mu[rng.randrange(len(mu))][1] = "-1"
             cases.append({"kind": "gs", "net": net, "mu": mu})
-    return cases
+    return cases + gen_mm_cases(rng, tier)
 
 
 # ------------------------------------------------------------------ Coq printing
@@ -270,10 +270,255 @@ def gs_term(case):
                             "notations": "+".join(notation) or "none", "external_compartment_is_e": ext == "e"}}
 
 
+# ------------------------------------------------------------------ minimal_medium cases
+def nb(net):
+    return [(gennet.num(r["lb"]), gennet.num(r["ub"])) for r in net["rxns"]]
+
+
+def cvec(net):
+    return [F(r["obj"]) for r in net["rxns"]]
+
+
+def growth_lp(net, bounds):
+    lp = gennet.net_lp(net, obj=cvec(net))
+    lp["vb"] = list(bounds)
+    return lp
+
+
+def split_bounds(lb, ub):
+    if lb is not None and lb > 0:
+        return (lb, ub), (F(0), F(0))
+    if ub is not None and ub < 0:
+        return (F(0), F(0)), (-ub, None if lb is None else -lb)
+    return (F(0), ub), (F(0), None if lb is None else -lb)
+
+
+def mm_lp(net, bounds, ex, t):
+    """The LP of add_linear_obj + medium_obj_constraint in forward/reverse encoding (mirror of MinMedium.mm_lp)."""
+    base = gennet.net_lp(net, obj=cvec(net))
+    vb, obj = [], []
+    for (lb, ub), e in zip(bounds, ex):
+        f, r = split_bounds(lb, ub)
+        vb += [f, r]
+        obj += [F(0), F(-1)] if e is True else ([F(-1), F(0)] if e is False else [F(0), F(0)])
+
+    def dup(row):
+        out = []
+        for a in row:
+            out += [a, -a]
+        return out
+    rows = [(dup(c), lo, hi) for c, lo, hi in base["rows"]] + [(dup(cvec(net)), t, None)]
+    return {"vb": vb, "rows": rows, "obj": obj}
+
+
+def apply_medium(bounds, ex, mu):
+    """Mirror of MinMedium.apply_medium (the setter, reaction by reaction); None = it would raise."""
+    out = []
+    for j, ((lb, ub), e) in enumerate(zip(bounds, ex)):
+        if e is None:
+            out.append((lb, ub))
+            continue
+        if j in mu:
+            val = mu[j]
+        else:
+            old = (None if lb is None else -lb) if e else ub       # import bound, None = +inf
+            val = F(0) if (old is None or old >= 0) else old
+        if e:
+            nl = -val
+            if ub is not None and nl > ub:
+                return None
+            out.append((nl, ub))
+        else:
+            if lb is not None and lb > val:
+                return None
+            out.append((lb, val))
+    return out
+
+
+def restrict(bounds, ex, a):
+    out = []
+    for (lb, ub), e, keep in zip(bounds, ex, a):
+        if e is None or keep:
+            out.append((lb, ub))
+        elif e:
+            out.append((F(0) if (lb is None or lb < 0) else lb, ub))
+        else:
+            out.append((lb, F(0) if (ub is None or ub > 0) else ub))
+    return out
+
+
+def subsets(ex):
+    if not ex:
+        return [[]]
+    rest = subsets(ex[1:])
+    if ex[0] is None:
+        return [[False] + s for s in rest]
+    return [[False] + s for s in rest] + [[True] + s for s in rest]
+
+
+def pin(bounds, ex, mu):
+    out = []
+    for j, ((lb, ub), e) in enumerate(zip(bounds, ex)):
+        if e is None:
+            out.append((lb, ub))
+            continue
+        val = mu.get(j, F(0))
+        x = -val if e else val
+        d = F(1, 10 ** 6) * max(F(1), abs(x))
+        out.append((x - d if lb is None else max(lb, x - d), x + d if ub is None else min(ub, x + d)))
+    return out
+
+
+def mcert(lp):
+    o = lpexact.certified(lp)
+    if o[0] == "optimal":
+        return "(MOpt %s %s)" % (gennet.vec(o[1]), gennet.vec(o[2])), o
+    if o[0] == "infeasible":
+        return "(MInf %s)" % gennet.vec(o[1]), o
+    return "(MInf [])", o
+
+
+def scert(lp):
+    o = lpexact.certified(lp)
+    if o[0] == "optimal":
+        return "(SOpt %s %s)" % (gennet.vec(o[1]), gennet.vec(o[2])), o
+    if o[0] == "infeasible":
+        return "(SInf %s)" % gennet.vec(o[1]), o
+    return "(SInf [])", o
+
+
+def is_dyadic(x):
+    d = F(x).denominator
+    return d & (d - 1) == 0
+
+
+def exmap_of(m, net):
+    from cobra.medium import find_boundary_types
+    exs = {r.id: (len(r.reactants) == 1) for r in find_boundary_types(m, "exchange")}
+    return [exs.get(r["id"]) for r in net["rxns"]]
+
+
+def gen_mm_cases(rng, tier):
+    n_nets = 80 if tier == "quick" else 700
+    cases = []
+    for _ in range(n_nets):
+        net = gen_medium_net(rng, growth=True)
+        m = to_cobra(net)
+        with warnings.catch_warnings():
+            warnings.simplefilter("ignore")
+            ex = exmap_of(m, net)
+        if not any(e is not None for e in ex):
+            continue
+        for _k in range(4):
+            opn = rng.choices([False, True, 10, 0], [60, 20, 15, 5])[0]
+            bounds = nb(net)
+            if opn is not False and opn != 0:
+                B = F(1000) if opn is True else F(opn)
+                bounds = [(-B, B) if e is not None else b_ for b_, e in zip(bounds, ex)]
+            o = lpexact.certified(growth_lp(net, bounds))
+            if o[0] != "optimal":
+                t = F(1, 2)
+            else:
+                g = sum(c * x for c, x in zip(cvec(net), o[1]))
+                if g <= 0:
+                    t = F(1, 2)
+                else:
+                    fr = rng.choice([F(1, 4), F(1, 2), F(1), F(3)] if is_dyadic(g) else [F(1, 4), F(1, 2), F(3, 4), F(3)])
+                    t = F(float(g * fr)) if fr < 3 else F(float(2 * g + 1))
+            comp = rng.choices([False, True, 3], [50, 30, 20])[0]
+            cases.append({"kind": "mm", "net": net, "t": str(t), "open": opn, "exports": rng.random() < 0.35,
+                          "components": comp})
+    return cases
+
+
+def mm_term(case):
+    from cobra.medium import minimal_medium
+    import pandas as pd
+    net = case["net"]
+    ids = [r["id"] for r in net["rxns"]]
+    idx = {k: i for i, k in enumerate(ids)}
+    t = F(case["t"])
+    opn, exports, comp = case["open"], case["exports"], case["components"]
+    m = to_cobra(net)
+    obs = {}
+    with warnings.catch_warnings():
+        warnings.simplefilter("ignore")
+        ex = exmap_of(m, net)
+        raised = False
+        try:
+            res = minimal_medium(m, float(t), exports=exports, minimize_components=comp, open_exchanges=opn)
+        except Exception as e:  # noqa
+            raised, res = True, None
+            obs["exception"] = "%s: %s" % (type(e).__name__, e)
+    media = None
+    if res is not None:
+        cols = [res] if isinstance(res, pd.Series) else [res[c] for c in res.columns]
+        media = []
+        for col in cols:
+            mu = {idx[k]: F(float(v)) for k, v in col.items() if float(v) != 0.0}
+            media.append(mu)
+        obs["result"] = [{ids[j]: float(v) for j, v in mu.items()} for mu in media]
+    else:
+        obs["result"] = None
+    bounds = nb(net)
+    open_t = "None"
+    if opn is not False:
+        B = F(1000) if opn is True else F(opn)
+        open_t = "(Some %s)" % gennet.q(B)
+        if B != 0:
+            bounds = [(-B, B) if e is not None else b_ for b_, e in zip(bounds, ex)]
+    oracle_t, oracle = mcert(mm_lp(net, bounds, ex, t))
+    suff, pins = [], []
+    for mu in (media or []):
+        pos = {j: v for j, v in mu.items() if v > 0}
+        nb2 = apply_medium(bounds, ex, pos)
+        suff.append("(MInf [])" if nb2 is None else mcert(growth_lp(net, nb2))[0])
+        if exports:
+            pins.append(mcert(growth_lp(net, pin(bounds, ex, mu)))[0])
+    certs = []
+    k = 0 if comp is False else (1 if comp is True else int(comp))
+    n_exact = None
+    ill = False
+    if k > 0 and oracle[0] == "optimal":
+        best = None
+        for a in subsets(ex):
+            ct, o = scert(growth_lp(net, restrict(bounds, ex, a)))
+            certs.append(ct)
+            if o[0] == "optimal":
+                g = sum(c * x for c, x in zip(cvec(net), o[1]))
+                if g >= t:
+                    n = sum(a)
+                    best = n if best is None else min(best, n)
+                elif g > t - F(1, 10 ** 5) * max(1, abs(t)):
+                    ill = True            # a subset misses the target by less than the tolerance: envelope rule
+        n_exact = best
+    if ill:
+        return None, {"obs": obs, "skipped": True, "stats": {"kind": "minimal_medium", "ill_conditioned": True}}
+
+    def med_t(mu):
+        return "[" + "; ".join("(%d%%nat, %s)" % (j, gennet.q(v)) for j, v in sorted(mu.items())) + "]"
+    res_t = "None" if media is None else "(Some [%s])" % "; ".join(med_t(mu) for mu in media)
+    ex_t = "[" + "; ".join("None" if e is None else "Some %s" % b(e) for e in ex) + "]"
+    term = "(MM (mkMM %s %s %s %s %s %d%%nat %s %s %s [%s] [%s] [%s]))" % (
+        gennet.coq_net(net), ex_t, gennet.q(t), open_t, b(exports), k, b(raised), res_t, oracle_t,
+        "; ".join(suff), "; ".join(pins), "; ".join(certs))
+    obs["exact_min_total_import"] = None if oracle[0] != "optimal" else float(-sum(
+        c * x for c, x in zip(mm_lp(net, bounds, ex, t)["obj"], oracle[1])))
+    obs["exact_min_components"] = n_exact
+    return term, {"obs": obs, "nontrivial": True,
+                  "stats": {"kind": "minimal_medium", "n_exchanges": sum(e is not None for e in ex),
+                            "mode": "components" if k else "linear", "alternatives_requested": k,
+                            "open_exchanges": str(opn), "exports": exports,
+                            "verdict": "achievable" if oracle[0] == "optimal" else "unachievable",
+                            "returned": "None" if media is None else "%d medium/media" % len(media)}}
+
+
 def case_term(case):
     logging.disable(logging.CRITICAL)
     if case.get("kind", "gs") == "gs":
         return gs_term(case)
+    if case["kind"] == "mm":
+        return mm_term(case)
     raise ValueError("unknown case kind")
 
 
